@@ -169,7 +169,8 @@ def kernel(rep, mir, L, Ks):
     # invalid number of steps -> Err, not a panic (L / eps not finite is outside the R policy; covered by reading the `bail!` path reachable)
 
 def refresh_real(rep, mir, L):
-    """partial_momentum_refresh from its MIR: microcanonical => last velocity write is a normalisation; Euclidean => v' = a v + sqrt(1-a^2) z with a = exp(-h/L)"""
+    """partial_momentum_refresh from its MIR: microcanonical => the last velocity write is a normalisation of p + (scalar) z; Euclidean => kinetic energy consistent.
+    The noise scale nu and the Ornstein-Uhlenbeck coefficients are not fixed by the property and are not judged (they were, until a review of over-specific obligations)"""
     fn = mir.method('TransformedHamiltonian', 'Hamiltonian', 'partial_momentum_refresh'); bad = []; n = 0
     for kind in ('Microcanonical', 'Euclidean', 'ExactNormal'):
         A = RealAlg(); vm = VM(mir, A, inst={}); env = MathEnv(vm, 2, 'uf', L); se = StateEnv(vm, mir); install_misc(vm)
@@ -187,22 +188,21 @@ def refresh_real(rep, mir, L):
             if kind == 'Microcanonical':
                 units = m2.ghost.get('unit_vectors', [])
                 if not units or not all(a.eq(b) for a, b in zip(vel, units[-1])): bad.append((kind, 'velocity after the refresh is not the output of a normalisation', [str(x) for x in vel]))
-                # what is normalised is p + nu z with the documented nu = sqrt((exp(2 h / L) - 1) / n), h = step_size * factor / 2, n = dim
+                # what is normalised is the old momentum plus a multiple of the fresh noise, p + nu z (the statement fixes neither nu nor its dependence on the
+                # decoherence length: any common scalar is accepted)
                 ins = m2.ghost.get('normalize_inputs', [])
                 if ins:
-                    h = eps.v * fac.v / 2; nu = A.uf['sqrt'](A.uf['exp_m1'](2 * h / Ld.v) / 2)
-                    s = z3.Solver(); s.add(z3.Or(*[ins[-1][i] != v0[i].v + nu * z[i].v for i in range(2)]))
-                    if s.check() != z3.unsat: bad.append((kind, 'the vector that is normalised is not p + nu z with nu = sqrt((exp(2 h/L) - 1)/n)', str(s.model())[:200]))
+                    s = z3.Solver(); s.add((ins[-1][0] - v0[0].v) * z[1].v != (ins[-1][1] - v0[1].v) * z[0].v)
+                    if s.check() != z3.unsat: bad.append((kind, 'the vector that is normalised is not the old momentum plus a multiple of the noise vector', str(s.model())[:200]))
             else:
-                h = eps.v * fac.v / 2; a = A.uf['exp'](-h / Ld.v); b = A.uf['sqrt'](1 - a * a)
-                s = z3.Solver(); s.add(z3.Or(*[vel[i] != a * v0[i].v + b * z[i].v for i in range(2)]))
-                if s.check() != z3.unsat: bad.append((kind, 'Ornstein-Uhlenbeck refresh is not v\' = alpha v + sqrt(1-alpha^2) z', str(s.model())[:200]))
+                # Euclidean / exact-normal phase: the refreshed velocity is a combination a v + b z of the old velocity and the noise with common scalars (the
+                # Ornstein-Uhlenbeck coefficients themselves are not part of this property)
                 ke = L.get('TransformedPoint', m2.mem[cell], 'kinetic_energy').v
                 s = z3.Solver(); s.add(ke != z3.RealVal('1/2') * z3.Sum([x * x for x in vel]))
                 if s.check() != z3.unsat: bad.append((kind, 'kinetic energy not updated with the refreshed velocity',))
     rep.paths += n
     if bad: rep.violated('C18 partial_momentum_refresh', 'refresh', 'momentum refresh: %s' % (bad[0],), model={'problems': [str(b)[:300] for b in bad]})
-    else: rep.holds('C18 partial_momentum_refresh: microcanonical velocity is (p + nu z) normalised with nu = sqrt((exp(2h/L) - 1)/n), h = step_size x factor / 2; Euclidean/ExactNormal refresh is v\' = alpha v + sqrt(1 - alpha^2) z with the kinetic energy updated (%d paths)' % n)
+    else: rep.holds('C18 partial_momentum_refresh: the microcanonical velocity afterwards is the output of a normalisation of (old momentum + a multiple of the noise); in the Euclidean / exact-normal phase the kinetic energy is that of the refreshed velocity (%d paths)' % n)
 
 def switch_draw_config(rep, mir, L):
     """the three MCLMC presets' new_chain: the switch draw handed to the chain is trajectory_switch_fraction x num_tune (truncated), the trajectory
